@@ -613,6 +613,16 @@ func (g *gen) control(t typ, d int) (node, bool) {
 				es = append(es, g.expr(t, d-1))
 			}
 		}
+		if len(es) > 0 && g.r.Chance(40) {
+			// a form before the last that returns several values: or looks at, and returns, the first one only
+			i := g.r.Intn(len(es))
+			if g.r.Bool() {
+				junk := g.expr(tInt, d-2)
+				es[i] = node{lisp("values", "nil", junk.L), "(EValues [EConst DNil; " + junk.G + "])"}
+			} else {
+				es[i] = g.values(t, d-1, true)
+			}
+		}
 		es = append(es, g.expr(t, d-1))
 		return node{lisp("or", joinL(es)), "(EOr " + listG(es) + ")"}, true
 	case 9, 10, 11:
@@ -647,7 +657,16 @@ func (g *gen) control(t typ, d int) (node, bool) {
 		n := g.cnt(4)
 		names := g.freshNames(n)
 		var ve node
-		if g.r.Chance(65) {
+		if g.r.Chance(12) {
+			// (or (values e junk) e2): or passes on the first value only of a form that is not its last
+			a, b := g.values(tInt, d-1, true), g.expr(tInt, d-1)
+			if g.r.Bool() {
+				junk := g.expr(tInt, d-2)
+				a = node{lisp("values", "nil", junk.L), "(EValues [EConst DNil; " + junk.G + "])"}
+			}
+			g.h("or-values")
+			ve = node{lisp("or", a.L, b.L), "(EOr " + gl(a.G, b.G) + ")"}
+		} else if g.r.Chance(65) {
 			// the values pass through forms that return what their last form returns (progn, let, let*, a lambda body)
 			ve = g.emptyScopes(g.values(tInt, d-1, true))
 		} else {
